@@ -896,5 +896,5 @@ def install():
 
 
 World.logging_real = False
-World.deadline_s = 10
+World.deadline_s = 6
 World.poll_fixpoint = True
